@@ -10,7 +10,7 @@
 import XpModel.Basic
 import XpProofs.Lemmas.Batching
 import XpProofs.Lemmas.Vec
-import XpProofs.Properties.C06
+import XpProofs.Lemmas.OcclBatch
 import Mathlib.Data.List.Perm.Basic
 
 namespace Xp.C03
@@ -77,12 +77,20 @@ theorem chunk_loop_exact (pbs nb : Nat) (h : 0 < pbs) :
     (chunkSizes pbs nb).sum = nb ∧ ∀ c ∈ chunkSizes pbs nb, 0 < c ∧ c ≤ pbs :=
   ⟨chunkSizes_sum pbs nb h, chunkSizes_le pbs nb⟩
 
-/-- Occlusion (method-specific model, see C06): every batch size gives the `None` result and the
-    result is per-sample -/
-theorem occlusion_bs_indep (g : Occl.Geom) (hs : g.StridePos) (f : List Rat → List Rat → Rat) (v : Rat)
+/-- Occlusion (model of C06): every batch size gives the `None` result — for ANY mask geometry
+    (this does not depend on the anchor arithmetic) -/
+theorem occlusion_bs_indep (g : Occl.Geom) (f : List Rat → List Rat → Rat) (v : Rat)
     (b : Nat) (hb : 0 < b) (xs ys : List (List Rat)) :
-    Occl.explain g f v (some b) xs ys = Occl.explain g f v none xs ys :=
-  Occl.occl_bs_indep g hs f v b hb xs ys
+    Occl.explain g f v (some b) xs ys = Occl.explain g f v none xs ys := by
+  unfold Occl.explain
+  by_cases hx : xs = []
+  · subst hx; simp
+  · have hn : 0 < effBatch none xs.length := List.length_pos_iff.mpr hx
+    show List.zipWith (fun x y => Occl.explainOne g (fun z => f z y) v b x) xs ys
+       = List.zipWith (fun x y => Occl.explainOne g (fun z => f z y) v (effBatch none xs.length) x) xs ys
+    congr 1
+    funext x y
+    exact Occl.explainOne_bs_indep g _ v b _ hb hn x
 
 -- non-vacuity
 example : PerSample (fun xs : List Nat => xs.map (· + 1)) (· + 1) := fun _ => rfl
